@@ -206,8 +206,9 @@ class TrioConn:
             self.handler_exc = e
             self.log.add("handler_exc", conn=self.cid, exc=type(e).__name__, msg=str(e)[:200])
         finally:
-            self.handler_done_at = self.env.now()
-            self.handler_done_seq = self.log.add("handler_done", conn=self.cid)["seq"]
+            if not self.env.tearing_down:
+                self.handler_done_at = self.env.now()
+                self.handler_done_seq = self.log.add("handler_done", conn=self.cid)["seq"]
 
     def _deliver(self, data: bytes) -> None:
         self.rx += data
@@ -215,11 +216,15 @@ class TrioConn:
         self.rx_marks.append((ev["seq"], ev["t"], len(self.rx)))
 
     def _server_eof(self) -> None:
+        if self.env.tearing_down:
+            return
         if self.server_eof_at is None:
             ev = self.log.add("server_eof", conn=self.cid)
             self.server_eof_at, self.server_eof_seq = ev["t"], ev["seq"]
 
     def _server_closed(self) -> None:
+        if self.env.tearing_down:
+            return
         self._server_eof()
         if self.closed_at is None:
             ev = self.log.add("server_closed", conn=self.cid, exc=None)
@@ -278,6 +283,7 @@ class TrioEnv:
         self.state = state if state is not None else {}
         self.conns: List[TrioConn] = []
         self.loop_errors: List[str] = []
+        self.tearing_down = False
 
     def now(self) -> float:
         return trio.current_time()
@@ -308,10 +314,20 @@ class TrioEnv:
         return [f"conn-{c.cid}" for c in self.conns if c.handler_done_at is None]
 
 
+def pin_scheduler(seed: int) -> None:
+    """trio deliberately randomises the order of runnable tasks each tick; pin it so that a case
+    is a pure function of its JSON (the seed is part of the generated case = the schedule)."""
+    import trio._core._run as tr
+
+    tr._ALLOW_DETERMINISTIC_SCHEDULING = True  # type: ignore
+    tr._r.seed(seed)
+
+
 def run_trio(scenario: Callable[[TrioEnv], Awaitable[Any]], cfg: Dict[str, Any],
              app_factory: Callable[[Any], Any], state: Optional[dict] = None,
-             max_requests: Optional[int] = None) -> Any:
+             max_requests: Optional[int] = None, sched: int = 0) -> Any:
     result: Dict[str, Any] = {}
+    pin_scheduler(sched)
 
     async def main() -> None:
         async with trio.open_nursery() as nursery:
@@ -322,6 +338,8 @@ def run_trio(scenario: Callable[[TrioEnv], Awaitable[Any]], cfg: Dict[str, Any],
                 result["value"] = await scenario(env)
                 result["alive"] = env.alive_tasks()
             finally:
+                env.tearing_down = True
+                env.log.add("teardown")
                 for c in env.conns:  # release anything parked on the fake wire
                     c.stream.peer_reset()
                 nursery.cancel_scope.cancel()
